@@ -108,6 +108,8 @@ def _is_equal(a: Any, b: Any) -> bool | None:  # noqa: PLR0911
     if isinstance(a, dict):
         return equal_dicts(a, b)
     if isinstance(a, np.ndarray):
+        if a.dtype.hasobject or b.dtype.hasobject:  # `isnan` is not defined for object arrays
+            return np.array_equal(a, b)
         return np.array_equal(a, b, equal_nan=True)
     if isinstance(a, set):
         return a == b
